@@ -280,6 +280,133 @@ func runHistory(r *hutil.Rng, idx int) History {
 	return h
 }
 
+// ---- enumerated families: short scripted histories, each on a FRESH map and fresh package
+// state, repeated because what they look for depends on sync.Map's iteration order and on the
+// random fallback (per round the pick is decided by two coin flips at worst)
+type step struct {
+	op   string // open | close | release | select
+	addr string // open
+	i    int    // close / release: index of the session in opening order
+	xid  string // select
+}
+
+func runScripted(policy string, steps []step, feat string) History {
+	loadbalance.VerifReset()
+	for _, a := range addrPool {
+		rpc.RemoveStatus(a)
+	}
+	h := History{Hash: map[string]uint32{}, BadAt: -1, Feat: []string{feat, policy}}
+	m := &sync.Map{}
+	var reg []*regEntry
+	for _, st := range steps {
+		switch st.op {
+		case "open":
+			s := &fakeSession{id: len(reg) + 1, addr: st.addr}
+			m.Store(s, true)
+			reg = append(reg, &regEntry{s: s})
+			h.Events = append(h.Events, Event{K: "open", ID: s.id, Addr: hx(st.addr)})
+			for i := 0; i < 10; i++ {
+				k := fmt.Sprintf("%s%d", st.addr, i)
+				h.Hash[hx(k)] = md5pos(k)
+			}
+		case "close": // closed, still in the registry (the reconnect window)
+			reg[st.i].s.Close()
+			h.Events = append(h.Events, Event{K: "close", ID: reg[st.i].s.id})
+		case "release":
+			m.Delete(reg[st.i].s)
+			reg[st.i].s.Close()
+			reg[st.i].released = true
+			h.Events = append(h.Events, Event{K: "release", ID: reg[st.i].s.id})
+		case "select":
+			var live []*regEntry
+			for _, e := range reg {
+				if !e.released && !e.s.IsClosed() {
+					live = append(live, e)
+				}
+			}
+			h.Hash[hx(st.xid)] = md5pos(st.xid)
+			ev := doSelect(policy, m, st.xid, reg, live)
+			if ev.Oracle != "" && h.Oracle == "" {
+				h.Oracle, h.BadAt = ev.Oracle, len(h.Events)
+			}
+			h.Events = append(h.Events, ev)
+		}
+	}
+	return h
+}
+
+// families returns the scripted histories of one run (deterministic from the rng)
+func families(r *hutil.Rng) []History {
+	var out []History
+	others := []string{"10.0.0.2:8091", "10.0.0.10:8091", "tc-0.seata:8091"}
+	xidOf := func(a string) string { return a + ":" + fmt.Sprint(r.Next()%1000000) }
+	// (F1) the reconnect window: a CLOSED session and its OPEN successor at the xid's address,
+	// both registered, k other open sessions; ONE selection (the first after the reconnect)
+	for _, p := range policies {
+		rounds := 8
+		if p == "XID" {
+			rounds = 90
+		}
+		for round := 0; round < rounds; round++ {
+			a := addrPool[round%2] // 10.0.0.1:8091 / 10.0.0.1:809
+			k := 1 + round%3
+			var st []step
+			// the order in which the sessions enter the map varies too
+			switch round % 3 {
+			case 0:
+				st = append(st, step{op: "open", addr: a}, step{op: "close", i: 0}, step{op: "open", addr: a})
+				for j := 0; j < k; j++ {
+					st = append(st, step{op: "open", addr: others[j]})
+				}
+			case 1:
+				for j := 0; j < k; j++ {
+					st = append(st, step{op: "open", addr: others[j]})
+				}
+				st = append(st, step{op: "open", addr: a}, step{op: "close", i: k}, step{op: "open", addr: a})
+			default:
+				st = append(st, step{op: "open", addr: a}, step{op: "open", addr: others[0]}, step{op: "close", i: 0}, step{op: "open", addr: a})
+				for j := 1; j < k; j++ {
+					st = append(st, step{op: "open", addr: others[j]})
+				}
+			}
+			st = append(st, step{op: "select", xid: xidOf(a)})
+			out = append(out, runScripted(p, st, "family:reconnect-window"))
+		}
+	}
+	// (F2) addresses in a string-prefix relation, xid of the longer one; ONE selection
+	for round := 0; round < 40; round++ {
+		pair := [][2]string{{"10.0.0.1:809", "10.0.0.1:8091"}, {"10.0.0.1:80", "10.0.0.1:809"}, {"10.0.0.1:8091", "10.0.0.10:8091"}}[round%3]
+		st := []step{{op: "open", addr: pair[round/3%2]}, {op: "open", addr: pair[1-round/3%2]}}
+		if round%4 == 0 {
+			st = append(st, step{op: "open", addr: others[0]})
+		}
+		st = append(st, step{op: "select", xid: xidOf(pair[1])})
+		out = append(out, runScripted("XID", st, "family:prefix-addresses"))
+	}
+	// (F3) consistent hash: the ring is built over an EMPTY registry, sessions open later
+	for round := 0; round < 6; round++ {
+		st := []step{{op: "select", xid: xidOf(others[0])}}
+		for j := 0; j <= round%3; j++ {
+			st = append(st, step{op: "open", addr: addrPool[(round+j)%len(addrPool)]})
+		}
+		st = append(st, step{op: "select", xid: xidOf(addrPool[round%4])}, step{op: "select", xid: xidOf(others[1])})
+		out = append(out, runScripted("ConsistentHashLoadBalance", st, "family:ring-built-empty"))
+	}
+	// (F4) consistent hash: every ring member closes (flag only / released), a new session opens
+	for round := 0; round < 10; round++ {
+		a, b, c := addrPool[round%5], addrPool[(round+2)%5+1], addrPool[(round+4)%6]
+		st := []step{{op: "open", addr: a}, {op: "open", addr: b}, {op: "select", xid: xidOf(a)}}
+		if round%2 == 0 {
+			st = append(st, step{op: "close", i: 0}, step{op: "close", i: 1})
+		} else {
+			st = append(st, step{op: "release", i: 0}, step{op: "close", i: 1})
+		}
+		st = append(st, step{op: "open", addr: c}, step{op: "select", xid: xidOf(a)}, step{op: "select", xid: xidOf(c)})
+		out = append(out, runScripted("ConsistentHashLoadBalance", st, "family:stale-ring"))
+	}
+	return out
+}
+
 // doSelect calls the real Select once and evaluates the property on the answer
 func doSelect(p string, m *sync.Map, xid string, reg []*regEntry, live []*regEntry) Event {
 	ev := Event{K: "select", Policy: p, Xid: hx(xid)}
@@ -897,6 +1024,7 @@ func Run(a map[string]string) {
 	for i := range forks {
 		forks[i] = root.Fork(uint64(100 + i))
 	}
+	famRng := root.Fork(800000)
 	for i := 0; i < n; i++ {
 		if only >= 0 && i != only {
 			continue
@@ -909,6 +1037,21 @@ func Run(a map[string]string) {
 			}
 		}
 		res.Histories = append(res.Histories, h)
+	}
+	// the enumerated families (indices n, n+1, ...: a replay re-runs them all and keeps one)
+	if hutil.ArgInt(a, "families", 1) > 0 && (only < 0 || only >= n) {
+		for j, h := range families(famRng) {
+			h.Index = n + j
+			if only >= 0 && h.Index != only {
+				continue
+			}
+			for _, e := range h.Events {
+				if e.K == "select" {
+					res.Selects++
+				}
+			}
+			res.Histories = append(res.Histories, h)
+		}
 	}
 	// the client (session manager, resource caches) is process-global state: ONE long
 	// history per run, made of nc scripts joined by a connection loss
